@@ -141,7 +141,9 @@ func (e *LinEnv) linOf(v ssa.Value, depth int) Lin {
 				src = meet(src, iv)
 			}
 			dst := typeRange(x.Type())
-			if src.Within(dst.Lo, dst.Hi) {
+			// an unsigned 64-bit source has values above the signed range although both bounds print as +inf
+			wide := typeRange(x.X.Type()).Lo == 0 && typeRange(x.X.Type()).Hi == PosInf && dst.Lo < 0 && src.Hi == PosInf
+			if src.Within(dst.Lo, dst.Hi) && !wide {
 				return e.linOf(x.X, depth+1)
 			}
 		}
@@ -295,7 +297,9 @@ func (e *LinEnv) lbOf(v ssa.Value, at *ssa.BasicBlock, assume map[*ssa.Phi]bool,
 	case *ssa.Convert:
 		if isIntType(x.X.Type()) {
 			src := e.lbOf(x.X, at, assume, depth+1)
-			if src >= tr.Lo && typeRange(x.X.Type()).Hi <= tr.Hi && src > best {
+			st := typeRange(x.X.Type())
+			wide := st.Lo == 0 && st.Hi == PosInf && tr.Lo < 0 && evalInt(x.X, at, 8).Hi == PosInf
+			if src >= tr.Lo && st.Hi <= tr.Hi && !wide && src > best {
 				best = src
 			}
 		}
